@@ -92,7 +92,7 @@ def multi_worker(kp, job):
 def run(chk):
     b = core.standard_build(chk)
     model = core.Model() if b.modelrun_ok else None
-    full = chk.tier == 'thorough' or bool(b.drift) or not b.proof_ok
+    full = chk.tier == 'thorough' or bool(b.drift) or not b.proof_ok or not b.modelrun_ok
     n = core.budget(chk, full, 150, 1500)
     chk.rule = ('generated documents of the supported grammar (1-4 spines of every type, interpretations, every barline type, '
                 'notes / rests / chords with arbitrary signifier layouts, null tokens, field and global comments, splits and '
